@@ -25,6 +25,7 @@ REGISTRY = {
     "C12": "purity",
     "C13": "quadctors",
     "C14": "quadline",
+    "C15": "degenerate",
     "C16": "membership",
     "C17": "measures",
     "C18": "intersect",
